@@ -66,6 +66,8 @@ fn main() {
     lap("L1x", &mut phase_s);
     guarded(&mut mon, "L1r", |m| phase_l1_random(m, threads));
     lap("L1r", &mut phase_s);
+    guarded(&mut mon, "L1w", phase_l1_window);
+    lap("L1w", &mut phase_s);
     guarded(&mut mon, "W", phase_wake);
     lap("W", &mut phase_s);
 
@@ -325,6 +327,59 @@ fn phase_l1_random(mon: &mut Monitor, threads: usize) {
             }
         }
     });
+}
+
+// ---------------------------------------------------------------------------------------------
+// L1w: exhaustive small scope INSIDE the refresh window (deterministic counterpart of the races the
+// stress phases look for): sizes 1-3, prefilled or filled by a first refresh, 0-2 items held by the
+// second actor, every scheduling point of the refresher, every sequence of up to 3 operations over
+// {acquire, give item, drop item, raw prepare, raw give, count}
+fn phase_l1_window(mon: &mut Monitor) {
+    const ALPHA: [Op; 6] = [Op::Acquire, Op::GiveItem(0), Op::GiveDrop(0), Op::RawPrep, Op::RawGive(0), Op::Count];
+    let mut seqs: Vec<Vec<Op>> = vec![];
+    for len in 1..=3usize {
+        let n = ALPHA.len().pow(len as u32);
+        for mut idx in 0..n {
+            let mut v = vec![];
+            for _ in 0..len {
+                v.push(ALPHA[idx % ALPHA.len()]);
+                idx /= ALPHA.len();
+            }
+            seqs.push(v);
+        }
+    }
+    let mut reported: std::collections::BTreeSet<&'static str> = Default::default();
+    for size in 1..=3usize {
+        for prefilled in [true, false] {
+            for pre in 0..=2usize.min(size) {
+                for at in 0..=3u8 {
+                    for inside in &seqs {
+                        let out = run_window(size, prefilled, pre, at, inside);
+                        let rep = check(&out.log, size);
+                        mon.eval();
+                        mon.count("L1w.histories");
+                        mon.count_n("ops.pool_calls", out.ops);
+                        merge_counters(mon, "L1w", &rep);
+                        for e in &out.errors {
+                            report_run_error(mon, "an L1w history", e);
+                        }
+                        mon.nontrivial_str(&format!("L1w|{size}|{prefilled}|{pre}|{at}|{}", inside.iter().map(|o| o.code()).collect::<Vec<_>>().join(",")));
+                        for f in &rep.findings {
+                            mon.count(&format!("L1w.violating_histories.{}", f.sig));
+                            if reported.insert(f.sig) || mon.counter(&format!("L1w.witnesses.{}", f.sig)) < 3 {
+                                mon.count(&format!("L1w.witnesses.{}", f.sig));
+                                mon.violation(
+                                    f.sig,
+                                    &format!("[L1w refresh window, size {size}, prefilled {prefilled}, {pre} item(s) held, second actor at scheduling point {at}: {}] {}", inside.iter().map(|o| o.code()).collect::<Vec<_>>().join(", "), f.what),
+                                    json!({"level": "L1w", "size": size, "prefilled": prefilled, "held_before": pre, "at": at, "inside": inside.iter().map(|o| o.code()).collect::<Vec<_>>(), "events": log_lines(&out.log, 80)}),
+                                );
+                            }
+                        }
+                    }
+                }
+            }
+        }
+    }
 }
 
 // ---------------------------------------------------------------------------------------------
